@@ -1173,7 +1173,7 @@ func (rn *runner) mkPlan(r *vh.Rand) {
 		}
 		if pe(40) {
 			// at the enforced value, or at least 2 s away from it (the exercise speaks 0.5 s before the advertised timeout)
-			ed("mit", []int64{enfIdle, enfIdle + 2000, enfIdle - 2000, enfIdle + 15000, 8000, 5000}[r.Intn(6)])
+			ed("mit", max(4000, []int64{enfIdle, enfIdle + 2000, enfIdle - 2000, enfIdle + 15000, 8000, 5000}[r.Intn(6)]))
 		}
 		if nEd == 0 {
 			ed("imd", enfConn)
